@@ -207,6 +207,65 @@ func TestExhaustive(t *testing.T) {
 	}
 }
 
+// Large leaf counts in the quick tier too: complete for the structure (root, SetTree), sampled over indices
+// (first/last of the level, the indices around every power of two and around n/2, plus drawn ones).
+func TestLargeCountsSampled(t *testing.T) {
+	ns := []int{2048, 2049, 2050, 2051, 3002, 4095, 4097, 4098, 5003, 6146, 8191, 10001}
+	if ev.Thorough() {
+		for n := 3001; n <= 12000; n += 97 {
+			ns = append(ns, n)
+		}
+	}
+	for k, n := range ns {
+		if k%ev.NShards != ev.Shard {
+			continue
+		}
+		n := n
+		func() {
+			defer func() {
+				if r := recover(); r != nil {
+					fail(t, n, -1, fmt.Sprintf("panic: %v", r))
+				}
+			}()
+			ls, hs := mkLeaves(n, ev.Seed+7)
+			mt := &util.MerkleTree{}
+			mt.ComputeTree(hs)
+			root := mt.GetRoot()
+			if root != refRoot(ls) {
+				fail(t, n, -1, "root differs from the reference root")
+			}
+			idx := map[int]bool{0: true, 1: true, n - 1: true, n - 2: true, n / 2: true, n/2 + 1: true, n/2 - 1: true}
+			for p := 1; p < n; p *= 2 {
+				idx[p-1], idx[p] = true, true
+				if p+1 < n {
+					idx[p+1] = true
+				}
+			}
+			for j := 0; j < 60; j++ {
+				idx[int(mix(ev.Seed, uint64(n), uint64(j))%uint64(n))] = true
+			}
+			for i := range idx {
+				if i < 0 || i >= n {
+					continue
+				}
+				p := mt.GetPathByIndex(i)
+				if !util.VerifyMerklePath(ls[i], p, root) || !refVerify(ls[i], p.Nodes, i, root) || !mt.VerifyPath(hs[i], p) {
+					fail(t, n, i, "path by index does not verify (large count)")
+				}
+				p2 := mt.GetPath(hs[i])
+				if p2.LeafIndex != i || !util.VerifyMerklePath(ls[i], p2, root) {
+					fail(t, n, i, "path by leaf lookup does not verify (large count)")
+				}
+				j := (i + 1 + int(mix(ev.Seed, uint64(i))%uint64(n-1))) % n
+				if j != i && util.VerifyMerklePath(ls[j], p, root) {
+					fail(t, n, i, fmt.Sprintf("path of %d verifies leaf %d (large count)", i, j))
+				}
+				ev.Case(fmt.Sprintf("L%d/%d", n, i), touchesOddTail(n, i), "large-count-sampled")
+			}
+		}()
+	}
+}
+
 // Leaf lists with duplicates: a path by index still verifies its leaf, lookup
 // returns a verifying path, and no *different* hash verifies with it.
 func TestDuplicates(t *testing.T) {
@@ -215,10 +274,19 @@ func TestDuplicates(t *testing.T) {
 		n := rapid.IntRange(1, 40).Draw(rt, "n")
 		pool := rapid.IntRange(1, 6).Draw(rt, "pool")
 		idx := rapid.SliceOfN(rapid.IntRange(0, pool-1), n, n).Draw(rt, "idx")
+		// leaf strings of one uniform width per tree (the usual 64, but also shorter and longer digests)
+		width := rapid.SampledFrom([]int{64, 64, 8, 96, 128}).Draw(rt, "width")
+		wide := func(s string) string {
+			out := h(s)
+			for len(out) < width {
+				out += h(out + s)
+			}
+			return out[:width]
+		}
 		ls := make([]string, n)
 		hs := make([]util.Hashable, n)
 		for i, x := range idx {
-			ls[i] = h(fmt.Sprintf("dup/%d", x))
+			ls[i] = wide(fmt.Sprintf("dup/%d", x))
 			hs[i] = leaf(ls[i])
 		}
 		mt := &util.MerkleTree{}
@@ -240,11 +308,16 @@ func TestDuplicates(t *testing.T) {
 			if p2.LeafIndex != i {
 				dups++
 			}
-			for x := 0; x < pool; x++ {
-				o := h(fmt.Sprintf("dup/%d", x))
+			for x := 0; x < pool+2; x++ {
+				o := wide(fmt.Sprintf("dup/%d", x))
 				if o != ls[i] && util.VerifyMerklePath(o, p, root) {
-					rt.Fatalf("path %d verifies a different hash", i)
+					rt.Fatalf("path %d verifies a different leaf string (width %d)", i, width)
 				}
+			}
+			// same prefix, different tail
+			o := ls[i][:width-1] + map[bool]string{true: "0", false: "1"}[ls[i][width-1] != '0']
+			if util.VerifyMerklePath(o, p, root) {
+				rt.Fatalf("path %d verifies a leaf string that differs in its last character (width %d)", i, width)
 			}
 		}
 		ev.Case(fmt.Sprintf("dup%v", idx), dups > 0 && n&(n-1) != 0, "duplicates")
